@@ -32,9 +32,15 @@ def parseElem (s : String) : Option Elem :=
   | 'N' :: r => (String.ofList r).toNat?.bind fun n => if n < 4294967296 then some (.nodeId n) else none
   | ['Q'] => some .qname
   | ['L'] => some .ltext
+  | 'o' :: r =>
+    match (String.ofList r).splitOn ":" with
+    | [t, x] => match t.toNat?, x.toNat? with
+      | some t, some x => if [13, 14, 16, 18, 19, 22, 23, 24, 25].contains t ∧ x < 1000 then some (.opaque t x) else none
+      | _, _ => none
+    | _ => none
   | _ => none
 
-def elemTyOk (t : Nat) : Bool := (1 ≤ t && t ≤ 12) || t == 15 || t == 17 || t == 20 || t == 21
+def elemTyOk (t : Nat) : Bool := 1 ≤ t && t ≤ 25
 
 def parseVal (s : String) : Option Val :=
   if s = "n" then some .empty else
@@ -65,6 +71,7 @@ def showElem : Elem → String
   | .nodeId n => s!"N{n}"
   | .qname => "Q"
   | .ltext => "L"
+  | .opaque t x => s!"o{t}:{x}"
 
 def showVal : Val → String
   | .empty => "n"
@@ -89,7 +96,7 @@ def parseRangeTok (s : String) : Option (Bytes × Bool) :=
   | 's' :: r => (parseBytesTok (String.ofList r)).map fun o => (o.getD [], o.isNone)
   | _ => none
 
-def dtOk (t : Nat) : Bool := [1, 2, 3, 4, 5, 6, 7, 8, 9, 10, 11, 12, 15, 17, 20, 21, 24, 26, 27, 28].contains t
+def dtOk (t : Nat) : Bool := (1 ≤ t && t ≤ 25) || t == 26 || t == 27 || t == 28
 
 def u32Ok (n : Nat) : Bool := n < 4294967296
 
@@ -145,6 +152,13 @@ def boundTags (pre : String) (v : Val) (r : NR) : List String :=
         [if isBoundary bytes a ∧ isBoundary bytes (m + 1) then "str.aligned" else if !isBoundary bytes a then "str.split-min" else "str.split-max"] else [])
   | _, _ => []
 
+/-- scalar kind of the stored / written value (builtin type id, 0 = Empty), and whether it is an array -/
+def kindTag (pre : String) (v : Val) (rg : String) : List String :=
+  match v with
+  | .empty => [s!"{pre}.k0.{rg}"]
+  | .one e => [s!"{pre}.k{e.ty}.{rg}"]
+  | .arr t _ => [s!"{pre}a.k{t}.{rg}"]
+
 def readTags (node : Option Node) (attr : Nat) (range : Bytes) (null : Bool) (out : ReadOut) : List String :=
   let st := match out with | .status s => stTag s | .value _ => "value" | .other => "other" | .panic => "panic"
   match node with
@@ -154,7 +168,8 @@ def readTags (node : Option Node) (attr : Nat) (range : Bytes) (null : Bool) (ou
     (if n.cls = 2 then [s!"r.acc{n.var.access % 4}"] else []) ++
     (if n.cls = 2 ∧ attr = 13 ∧ canRead n.var then
       match parseRange range with
-      | some r => [s!"rv.{valShape n.var.value}.{rgShape range false}"] ++ boundTags "r" n.var.value r
+      | some r => [s!"rv.{valShape n.var.value}.{rgShape range false}"] ++ kindTag "rk" n.var.value (rgShape range false) ++
+          boundTags "r" n.var.value r
       | none => []
      else [])
 
@@ -162,11 +177,12 @@ def validateTag (v : Var) (x : Val) : String :=
   match x with
   | .empty => "val.empty"
   | .one e =>
+    if e.ty = 22 then "val.scalar-notype" else
     if e.ty = v.dataType then "val.scalar-eq" else if isSubDT 4 e.ty v.dataType then "val.scalar-sub"
     else (match e with
       | .bstr _ => if v.dataType = 3 && byteArrayRank v.rank then "val.bstr-bytearray" else "val.scalar-bad"
       | _ => "val.scalar-bad")
-  | .arr _ (e :: _) => if e.ty = v.dataType then "val.arr-eq" else if isSubDT 4 e.ty v.dataType then "val.arr-sub" else "val.arr-bad"
+  | .arr _ (e :: _) => if e.ty = 22 then "val.arr-notype" else if e.ty = v.dataType then "val.arr-eq" else if isSubDT 4 e.ty v.dataType then "val.arr-sub" else "val.arr-bad"
   | .arr _ [] => "val.arr-empty"
 
 def setRangeTags (self : Val) (r : NR) (other : Val) : List String :=
@@ -184,6 +200,8 @@ def setRangeTags (self : Val) (r : NR) (other : Val) : List String :=
     | _, _, .multi => ["sr.multi"]
     | _, _, _ => []
 
+def ignoreR (_ : NR) : List String := []
+
 def writeTags (node : Option Node) (attr : Nat) (range : Bytes) (null : Bool) (x : Option Val) (st : Status) : List String :=
   match node with
   | none => ["w.nonode", s!"w.st.{stTag st}"]
@@ -195,7 +213,7 @@ def writeTags (node : Option Node) (attr : Nat) (range : Bytes) (null : Bool) (x
       (match x, parseRange range with
        | some v, some r =>
          if canWrite n.var then
-           [validateTag n.var v] ++
+           [validateTag n.var v] ++ kindTag "wk" v (rgShape range false) ++ (ignoreR r) ++
            (if validate n.var v then
              [if convert n.var v = v then "conv.none" else (match v with | .one (.bstr none) => "conv.bstr-null" | _ => "conv.bstr")] ++
              (if r = .none then ["w.whole"] else setRangeTags n.var.value r (convert n.var v))
